@@ -1883,7 +1883,9 @@ class MacroExpander:
                             )
                             pre_expanded.append((arg, arg_expansion))
                         else:
-                            pre_expanded.append((arg,))
+                            # The expanded form is not substituted, but a
+                            # variadic macro still merges both forms.
+                            pre_expanded.append((arg, arg))
                     # Proper expand
                     replacement = macro_lookup.replace(pre_expanded)
                     if isinstance(replacement, list) and len(replacement) > 0:
